@@ -6,7 +6,7 @@ from vlib import *
 import vshape
 
 ALL_TREE_TAGS = {"I", "S", "D", "MIN", "MAX", "SIZE", "ALL", "BWD", "TOPK", "BOTK", "RNG", "PFX"}
-NODE_TAGS = {"N4S", "N4I", "N4G", "N4P", "N4L", "N4R", "N4C", "N4D", "N16S", "N16I", "NADD", "NDEL", "NFIND", "NPROBE", "NENUM", "NDUMP"}
+NODE_TAGS = {"N4S", "N4I", "N4G", "N4P", "N4L", "N4R", "N4C", "N4D", "N16S", "N16I", "NADD", "NDEL", "NFIND", "NPROBE", "NENUM", "NDUMP", "NRAW"}
 
 # families: (family, files_quick, files_thorough, nops, histories_per_file)
 PROPS = {
@@ -33,8 +33,9 @@ PROPS = {
                 corr=NODE_TAGS, oracle=set(), theorem="Properties/C10.v", need386=True, special="node", corpus=["D11"]),
     "C11": dict(title="index well-formed", families=[("tree:shape", 16, 160, 90, 18)],
                 corr={"DUMP"}, oracle={"SIZE"}, theorem="Properties/C11.v", special="shape", corpus=["D10"]),
-    "C12": dict(title="recycled nodes", families=[("multi", 12, 120, 110, 4)],
-                corr=ALL_TREE_TAGS | {"DUMP"}, oracle=ALL_TREE_TAGS, theorem="Properties/C12.v", special="pool"),
+    # nodeseq: the bare node handle with NRAW lines = the raw node of Model/Pool.v (every slot) against the real node
+    "C12": dict(title="recycled nodes", families=[("multi", 12, 120, 110, 4), ("nodeseq", 3, 30, 0, 0)],
+                corr=ALL_TREE_TAGS | {"DUMP"} | NODE_TAGS, oracle=ALL_TREE_TAGS, theorem="Properties/C12.v", special="pool"),
     "C13": dict(title="key arguments", families=[("tree:full:alpha", 10, 100, 120, 22), ("tree:full:coll", 6, 60, 100, 14)],
                 corr=ALL_TREE_TAGS - {"RNG"}, oracle=ALL_TREE_TAGS - {"RNG"} | {"RNG"}, theorem="Properties/C13.v",
                 opts=["-buf"], side="C13", corpus=["D8"]),
